@@ -314,7 +314,8 @@ pub fn prop06() -> Prop {
             "comparison skipped beyond the first iteration whose regret-matching branch lies within 1e-9 of a discontinuity",
         ],
         post: None,
-        watchdog_s: 120,
+        watchdog_s: 60,
+        hang_is_violation: true,
         shrink_iters: 300,
     }
 }
@@ -333,7 +334,8 @@ pub fn prop07() -> Prop {
             "cases where a draw lies within 1e-9 of a cumulative boundary or a weight within (0,1e-6) are discarded",
         ],
         post: None,
-        watchdog_s: 120,
+        watchdog_s: 60,
+        hang_is_violation: true,
         shrink_iters: 300,
     }
 }
